@@ -4,7 +4,7 @@ CONSTANTS
   Routes = {"interp", "java"}
   Progs = {"p1"}
   Digests = {7, 8}
-  Builds = {"ok", "javac"}
+  Builds = {"ok", "compile", "javac", "timeout"}
 INVARIANTS TypeOK Sound NoFalseAlarm Statement RoutesAgree
 PROPERTIES WantStable ObsStable
 CHECK_DEADLOCK FALSE
